@@ -69,6 +69,7 @@ static long post_out_writes;        /* write/trunc calls on the output side afte
 static int cfg_done, cfg_class = -1, cfg_allalloc, cfg_side = -1 /* -1 any */, cfg_kind = EIO, cfg_eintr;
 static long cfg_k;
 static int fired, pending_eio, reached_exit;
+static int armed = 1;               /* harnesses disarm the shim around their own set-up (vf_arm) */
 static char fired_fn[32];
 static int fired_errno;
 static void *bt[48];
@@ -222,6 +223,8 @@ static int vf_decide(int cls, int side, const char *fn)
 	int is_alloc = cls >= C_MALLOC, match;
 
 	vf_init();
+	if (!armed)
+		return 0;
 	__atomic_add_fetch(&cnt[cls][side], 1, __ATOMIC_SEQ_CST);
 	if (fired && !pending_eio && side == S_OUT && (cls == C_WRITE || cls == C_TRUNC))
 		__atomic_add_fetch(&post_out_writes, 1, __ATOMIC_SEQ_CST);
@@ -248,6 +251,18 @@ static int vf_decide(int cls, int side, const char *fn)
 		pending_eio = 1;
 	vf_report();
 	return fired_errno;
+}
+
+/* for in-process harnesses (h_c13_bp.c) */
+int vf_fired(void)
+{
+	return fired;
+}
+
+void vf_arm(int on)
+{
+	vf_init();
+	armed = on;
 }
 
 /* ------------------------------------------------------------------ allocation wrappers */
